@@ -6,8 +6,9 @@
 set -u
 N="${1:-2000}"
 SEED="${2:-7}"
-LLSIM=/verif/sim/target/release/llsim
-OUT=/verif/sim/target/tmp/selftest-$$
+ROOT="$(cd "$(dirname "${BASH_SOURCE[0]}")/.." && pwd)"
+LLSIM="$ROOT/sim/target/release/llsim"
+OUT="$ROOT/sim/target/tmp/selftest-$$"
 mkdir -p "$OUT"
 FAMS="K1 K2 K3 K4 K5 K6 Q1 Q1open Q1crash Q3 Q5 Q6 Q7 Q9 Q13 Q2 Q4 Q8 QB"
 PROPS="1,3,4,5,10,13,15,21"
